@@ -323,6 +323,101 @@ pub fn main(args: &[String]) {
                 }
             });
         }
+        Some("layhostile") => {
+            // ContextClosure.tla: (chained) sequence context lookups whose lookup records carry any sequence index, and
+            // range coverage tables with start coverage indices at the top of their range, compiled with write-fonts
+            use write_fonts::tables::gsub::{Gsub, SingleSubst, SubstitutionChainContext, SubstitutionLookup, SubstitutionLookupList, SubstitutionSequenceContext};
+            use write_fonts::tables::layout::*;
+            let path = arg_after(args, "--cases").expect("--cases");
+            let g16 = |g: u16| font_types::GlyphId16::new(g);
+            fvcore::tlc_stream(&path, &["LAYCASE"], |_, c| {
+                rep.evaluations += 1;
+                let case = json!({"kind": "layout-hostile-case", "case": c});
+                if c["kind"] == "cov" {
+                    let ranges: Vec<RangeRecord> = c["ranges"].as_array().unwrap().iter().map(|r| RangeRecord::new(g16(r[0].as_u64().unwrap() as u16), g16(r[1].as_u64().unwrap() as u16), r[2].as_u64().unwrap() as u16)).collect();
+                    let bytes = match write_fonts::dump_table(&CoverageTable::Format2(CoverageFormat2::new(ranges))) {
+                        Ok(b) => b,
+                        Err(_) => return,
+                    };
+                    let r = guarded(|| {
+                        use read_fonts::FontRead;
+                        let cov = read_fonts::tables::layout::CoverageTable::read(read_fonts::FontData::new(&bytes)).map_err(|e| e.to_string())?;
+                        let gets: Vec<Option<u16>> = (18u32..36).map(|g| cov.get(font_types::GlyphId::new(g))).collect();
+                        Ok::<_, String>((gets, cov.iter().take(100).count()))
+                    });
+                    match r {
+                        Err(p) => rep.violation(&format!("coverage lookup panicked: {p}"), case),
+                        Ok(x) => {
+                            ev.push(json!({"op": "layhostile", "kind": "cov", "outcome": if x.is_ok() { "value" } else { "error" }}));
+                            rep.distinct += 1;
+                        }
+                    }
+                    return;
+                }
+                let fmt = c["fmt"].as_u64().unwrap();
+                let chain = c["chain"].as_bool().unwrap();
+                let n = c["n"].as_u64().unwrap() as u16;
+                let recs: Vec<SequenceLookupRecord> = c["recs"].as_array().unwrap().iter().map(|s| SequenceLookupRecord::new(s.as_u64().unwrap() as u16, 1)).collect();
+                let cov1 = |g: u16| -> CoverageTable { [g16(g)].into_iter().collect() };
+                // classes: glyph 10 + k has class 1 + k
+                let classdef = || -> ClassDef { (0..3u16).map(|k| (g16(10 + k), 1 + k)).collect() };
+                let input_glyphs: Vec<font_types::GlyphId16> = (1..=n).map(|k| g16(10 + k)).collect();
+                let input_classes: Vec<u16> = (1..=n).map(|k| 1 + k).collect();
+                let lookup0: SubstitutionLookup = if !chain {
+                    let sc = match fmt {
+                        1 => SequenceContext::Format1(SequenceContextFormat1::new(cov1(10), vec![Some(SequenceRuleSet::new(vec![SequenceRule::new(input_glyphs, recs)]))])),
+                        2 => SequenceContext::Format2(SequenceContextFormat2::new(cov1(10), classdef(), vec![None, Some(ClassSequenceRuleSet::new(vec![ClassSequenceRule::new(input_classes, recs)]))])),
+                        _ => SequenceContext::Format3(SequenceContextFormat3::new((0..=n).map(|k| cov1(10 + k)).collect(), recs)),
+                    };
+                    SubstitutionLookup::Contextual(Lookup::new(LookupFlag::empty(), vec![SubstitutionSequenceContext::from(sc)]))
+                } else {
+                    let sc = match fmt {
+                        1 => ChainedSequenceContext::Format1(ChainedSequenceContextFormat1::new(cov1(10), vec![Some(ChainedSequenceRuleSet::new(vec![ChainedSequenceRule::new(vec![], input_glyphs, vec![], recs)]))])),
+                        2 => ChainedSequenceContext::Format2(ChainedSequenceContextFormat2::new(cov1(10), classdef(), classdef(), classdef(), vec![None, Some(ChainedClassSequenceRuleSet::new(vec![ChainedClassSequenceRule::new(vec![], input_classes, vec![], recs)]))])),
+                        _ => ChainedSequenceContext::Format3(ChainedSequenceContextFormat3::new(vec![], (0..=n).map(|k| cov1(10 + k)).collect(), vec![], recs)),
+                    };
+                    SubstitutionLookup::ChainContextual(Lookup::new(LookupFlag::empty(), vec![SubstitutionChainContext::from(sc)]))
+                };
+                let lookup1 = SubstitutionLookup::Single(Lookup::new(LookupFlag::empty(), vec![SingleSubst::format_1((10..=12u16).map(g16).collect(), 100)]));
+                let feature_list = FeatureList::new(vec![FeatureRecord::new(font_types::Tag::new(b"test"), Feature::new(None, vec![0]))]);
+                let script_list = ScriptList::new(vec![ScriptRecord::new(font_types::Tag::new(b"DFLT"), Script::new(Some(LangSys::new(vec![0])), vec![]))]);
+                let gsub = Gsub::new(script_list, feature_list, SubstitutionLookupList::new(vec![lookup0, lookup1]));
+                let bytes = match guarded(|| write_fonts::dump_table(&gsub)) {
+                    Ok(Ok(b)) => b,
+                    other => {
+                        rep.add("cases_the_writer_refused", 1);
+                        let _ = other;
+                        return;
+                    }
+                };
+                let set_of = |k: &str| -> std::collections::BTreeSet<u32> { c[k].as_array().unwrap().iter().map(|g| g.as_u64().unwrap() as u32).collect() };
+                let (want_min, want_max) = (set_of("closure_min"), set_of("closure_max"));
+                let r = guarded(|| {
+                    use read_fonts::FontRead;
+                    let g = read_fonts::tables::gsub::Gsub::read(read_fonts::FontData::new(&bytes)).map_err(|e| e.to_string())?;
+                    let mut set: read_fonts::collections::IntSet<font_types::GlyphId16> = read_fonts::collections::IntSet::empty();
+                    set.insert_range(g16(10)..=g16(12));
+                    let out = g.closure_glyphs(set).map_err(|e| format!("{e:?}"))?;
+                    Ok::<_, String>(out.iter().map(|g| g.to_u32()).collect::<Vec<u32>>())
+                });
+                match r {
+                    Err(p) => rep.violation(&format!("GSUB closure over a context lookup (format {fmt}, chain {chain}, input {n}, records {}) panicked: {p}", c["recs"]), case),
+                    Ok(Ok(got)) => {
+                        let got_set: std::collections::BTreeSet<u32> = got.iter().copied().collect();
+                        if !(want_min.is_subset(&got_set) && got_set.is_subset(&want_max)) {
+                            rep.add("outcome_differs_from_model", 1);
+                            if rep.samples.len() < 4 {
+                                rep.sample(json!({"case": c, "real": got}));
+                            }
+                        } else {
+                            rep.distinct += 1;
+                        }
+                        ev.push(json!({"op": "layhostile", "kind": "ctx", "outcome": "value"}));
+                    }
+                    Ok(Err(_)) => ev.push(json!({"op": "layhostile", "kind": "ctx", "outcome": "error"})),
+                }
+            });
+        }
         Some("packed") => {
             // PackedHostile.tla streams inside a raw one-glyph gvar table, through TupleVariation::deltas
             use read_fonts::tables::gvar::Gvar;
